@@ -36,6 +36,8 @@ def gen_keys(rng, P):
     dt = rng.choice(P["key_dtypes"])
     info = np.iinfo(dt)
     n = rng.randint(1, 40) if rng.random() < 0.8 else rng.randint(1, 6)
+    if rng.random() < 0.01 and dt not in ("int8", "uint8"):
+        n = rng.randint(257, 320)                      # more keys than 8 bits count
     n = min(n, int(info.max) - int(info.min) + 1)      # (as many distinct keys as the dtype has values, at most)
     if rng.random() < 0.05 and dt in ("int8", "uint8"):
         n = rng.randint(65, 120)                       # default modulus 2n-1 then exceeds the key dtype's range
@@ -47,9 +49,9 @@ def gen_keys(rng, P):
     def draw():
         m = mag if mag != "mixed" else rng.choice(["small", "neg", "limits", "huge"])
         if m == "small":
-            return rng.randint(max(lo, 0), min(hi, 120))
+            return rng.randint(max(lo, 0), min(hi, max(120, 4 * n)))
         if m == "neg":
-            return rng.randint(max(lo, -120), min(hi, 20))
+            return rng.randint(max(lo, -max(120, 4 * n)), min(hi, 20))
         if m == "limits":
             return rng.choice([lo + rng.randint(0, 5), hi - rng.randint(0, 5)])
         return rng.randint(lo, hi)
